@@ -5,7 +5,9 @@ resolved from a library module (e.g. `pyphysim.simulations.results.open`) is
 replaced by `CrashFS.open`, which forwards to the real `open` but wraps files
 opened for writing so that every operation is logged and is a potential crash
 point.  `os.replace/os.rename/os.remove/os.mkdir` can be wrapped the same way
-through `wrap_os(module)`.
+through `wrap_os(module)`.  `CrashFS.installed()` does both process-wide for
+every path under the private directory, so the layer does not depend on WHICH
+module of the library issues the operation or how it spells it.
 
 Crash model = process kill:
   * an `open(...,'w')` truncation is durable immediately;
@@ -24,6 +26,7 @@ callback (an E2 choice point supplied by the harness):
     decide("remove", path) / ("mkdir", path) likewise 0/1/2
 """
 import builtins
+import contextlib
 import os
 import shutil
 import tempfile
@@ -183,6 +186,58 @@ class CrashFS:
                 return real_os.fsync(fd)
 
         return _OS()
+
+    # -- process-wide installation ---------------------------------------
+    def under_root(self, path):
+        try:
+            p = os.fspath(path)
+        except TypeError:
+            return False               # file descriptors etc.
+        if isinstance(p, bytes):
+            p = os.fsdecode(p)
+        return os.path.abspath(p).startswith(self.root)
+
+    @contextlib.contextmanager
+    def installed(self):
+        """Route EVERY file operation of the process that touches this file system's directory
+        through the crash layer, whichever module issues it and whichever spelling it uses:
+        builtins.open / io.open (hence pathlib.Path.open, write_bytes, write_text) and
+        os.replace / rename / remove / unlink / mkdir (hence makedirs, Path.mkdir) / rmdir / fsync.
+        Paths outside the directory pass through untouched and unlogged."""
+        import io
+        import types
+        names = ("replace", "rename", "remove", "unlink", "mkdir", "rmdir", "fsync")
+        real = types.SimpleNamespace(path=os.path, **{n: getattr(os, n) for n in names})
+        wrapped = self.wrap_os(real)
+        fs = self
+
+        def route(name):
+            w, r = getattr(wrapped, name), getattr(real, name)
+
+            def f(p, *a, **kw):
+                if fs.under_root(p):
+                    return w(p, *a, **kw)
+                return r(p, *a, **kw)
+            f.__name__ = name
+            return f
+
+        def opener(file, mode="r", *a, **kw):
+            if fs.under_root(file):
+                return fs.open(os.fspath(file), mode, *a, **kw)
+            return fs._real_open(file, mode, *a, **kw)
+
+        saved = [(builtins, "open", builtins.open), (io, "open", io.open)]
+        saved += [(os, n, getattr(os, n)) for n in names if n != "fsync"]
+        try:
+            builtins.open = opener
+            io.open = opener
+            for n in names:
+                if n != "fsync":
+                    setattr(os, n, route(n))
+            yield self
+        finally:
+            for mod, n, old in saved:
+                setattr(mod, n, old)
 
     # -- durable image -------------------------------------------------
     def image(self):
